@@ -50,13 +50,14 @@ pub async fn audit_verify<TC: Configuration>(
     for i in 0..hashes.len() - 1 {
         let start_hash = hashes[i];
         let end_hash = hashes[i + 1];
-        verify_consecutive_append_only::<TC>(
-            &proof.proofs[i],
-            start_hash,
-            end_hash,
-            proof.epochs[i] + 1,
-        )
-        .await?;
+        let end_epoch = proof.epochs[i].checked_add(1).ok_or_else(|| {
+            AkdError::AuditErr(AuditorError::VerifyAuditProof(format!(
+                "The proof contains an epoch which has no successor: {}",
+                proof.epochs[i]
+            )))
+        })?;
+        verify_consecutive_append_only::<TC>(&proof.proofs[i], start_hash, end_hash, end_epoch)
+            .await?;
     }
     Ok(())
 }
